@@ -151,16 +151,97 @@ def int_bounds(name):
     return (-(1 << (b - 1)), (1 << (b - 1)) - 1) if s else (0, (1 << b) - 1)
 
 
+def split_generic(name):
+    """'Wrapper<A,B>' -> ('Wrapper', ['A', 'B']) respecting nesting."""
+    i = name.find("<")
+    if i < 0 or not name.endswith(">"):
+        return name, []
+    head, body = name[:i], name[i + 1:-1]
+    args, depth, cur = [], 0, ""
+    for ch in body:
+        if ch == "<":
+            depth += 1
+        if ch == ">":
+            depth -= 1
+        if ch == "," and depth == 0:
+            args.append(cur)
+            cur = ""
+        else:
+            cur += ch
+    args.append(cur)
+    return head, args
+
+
+WRAPPERS = {"Option": ("TOption", "WOption"), "Box": ("TPtr", "WPtr"), "Rc": ("TPtr", "WPtr"), "Arc": ("TPtr", "WPtr"),
+            "RefCell": ("TPtr", "WPtr"), "SpannedValue": ("TSpanned", "WSpanned"),
+            "WithOriginal": ("TWithOriginal", "WWithOriginal"), "Override": ("TOverride", "WOverride"),
+            "darling::Result": ("TResult", "WResult"), "Result": ("TResultMeta", "WResultMeta")}
+SYN_PARSE = ["Type", "TypeArray", "TypeBareFn", "TypeImplTrait", "TypeInfer", "TypeMacro", "TypeNever", "TypeParen", "TypePath",
+             "TypePtr", "TypeReference", "TypeSlice", "TypeTraitObject", "TypeTuple", "Visibility", "WhereClause"]
+LIT_WANT = {"Lit": "", "LitInt": "int", "LitFloat": "float", "LitStr": "string", "LitByte": "byte", "LitByteStr": "byte string",
+            "LitChar": "char", "LitBool": "bool"}
+
+
+def wrapper_of(name):
+    """(wrapper constructor for holds12, inner type name) or None."""
+    head, args = split_generic(name.replace(" ", ""))
+    if head in WRAPPERS and args:
+        return WRAPPERS[head][1], args[0]
+    return None
+
+
 def c_target(name):
     name = name.replace(" ", "")
     simple = {"()": "TUnit", "bool": "TBool", "AtomicBool": "TAtomicBool", "char": "TChar", "String": "TString",
-              "PathBuf": "TPathBuf", "f32": "(TFloat false)", "f64": "(TFloat true)"}
+              "PathBuf": "TPathBuf", "f32": "(TFloat false)", "f64": "(TFloat true)",
+              "syn::Expr": "TExpr", "syn::Path": "TPath", "syn::Ident": "TIdent", "IdentString": "TIdentString",
+              "Callable": "TCallable", "syn::Meta": "TMeta", "PathList": "TPathList", "Flag": "TFlag",
+              "Vec<syn::WherePredicate>": "TWherePreds",
+              "syn::ExprArray": '(TExprType GExprArray "array")', "syn::ExprPath": '(TExprType GExprPath "path")',
+              "syn::ExprRange": '(TExprType GExprRange "range")',
+              "Punctuated<syn::Path,Comma>": '(TPunct "Path")', "Punctuated<syn::Ident,Comma>": '(TPunct "Ident")'}
     if name in simple:
         return simple[name]
     if name in INT_TARGETS:
         s, b, nz = INT_TARGETS[name]
         return "(TInt (mkIty %s %s %s))" % (cbool(s), cN(b), cbool(nz))
+    if name.startswith("syn::") and name[5:] in SYN_PARSE:
+        return '(TSynParse (GSyn "%s"))' % name[5:]
+    if name.startswith("syn::") and name[5:] in LIT_WANT:
+        return '(TLit %s)' % cstr(LIT_WANT[name[5:]])
+    head, args = split_generic(name)
+    if head == "Vec" and args[0].startswith("syn::") and args[0][5:] in LIT_WANT:
+        return '(TVecLit %s)' % cstr(LIT_WANT[args[0][5:]])
+    if head == "Vec" and args[0] in INT_TARGETS:
+        s, b, nz = INT_TARGETS[args[0]]
+        return "(TNumArr (mkIty %s %s %s))" % (cbool(s), cN(b), cbool(nz))
+    if head in WRAPPERS:
+        return "(%s %s)" % (WRAPPERS[head][0], c_target(args[0]))
+    if head in ("HashMap", "BTreeMap"):
+        k = {"String": "KString", "syn::Ident": "KIdent", "syn::Path": "KPath"}[args[0]]
+        return "(TMap %s %s)" % (k, c_target(args[1]))
+    if head.startswith("P") and head[1:].isdigit() and args:
+        m = int(head[1:])
+        bits = " ".join(cbool(bool(m >> b & 1)) for b in range(7))
+        return "(TProbe (probe_fm %s %s))" % (bits, cN(int(args[0])))
     raise ValueError("no model target for " + name)
+
+
+def c_grammar(g):
+    if g.startswith("syn:"):
+        return '(GSyn "%s")' % g[4:]
+    if g.startswith("punct:"):
+        return '(GPunct "%s")' % g[6:]
+    return "G" + g
+
+
+def c_oracles(o):
+    if not o:
+        return "{| r_parse := []; r_arr := []; r_preds := [] |}"
+    parse = clist(["(%s, %s, %s)" % (c_grammar(g), cstr(s), copt(t, cstr)) for g, s, t in o["parse"]])
+    arr = clist(["(%s, %s)" % (cstr(s), copt(e, c_expr)) for s, e in o["arr"]])
+    preds = clist(["(%s, %s)" % (cstr(s), copt(ps, lambda l: clist([cstr(x) for x in l]))) for s, ps in o["preds"]])
+    return "{| r_parse := %s; r_arr := %s; r_preds := %s |}" % (parse, arr, preds)
 
 
 HEADER_CONV = """From DarlingModel Require Import Base.Prelude Base.Syntax Conv.Targets Exec.ErrObs Exec.ConvCase.
@@ -171,5 +252,5 @@ def c_case_conv(target, entry, result):
     echo = result.get("echo")
     inp = c_nested(echo) if echo else '(NPath (mkInfo (0%N,0%N,0%N,0%N) "") (mkPath (mkInfo (0%N,0%N,0%N,0%N) "") false []))'
     ent = {"meta": "EMeta", "nested": "ENested", "none": "ENone"}[entry]
-    return "{| k_target := %s; k_pf := %s; k_entry := %s; k_input := %s; k_obs := %s |}" % (
-        c_target(target), c_pf(result.get("pf", [])), ent, inp, c_conv_obs(result))
+    return "{| k_target := %s; k_pf := %s; k_or := %s; k_entry := %s; k_input := %s; k_obs := %s |}" % (
+        c_target(target), c_pf(result.get("pf", [])), c_oracles(result.get("or")), ent, inp, c_conv_obs(result))
